@@ -64,8 +64,11 @@ pub struct Case {
   pub secret: Vec<String>,
   pub prefix: Vec<u64>,
   pub tail: u64,
-  /// 0 = iterator, 1 = gen(rng2)
+  /// 0 = iterator (next), 1 = gen(rng2), 2 = iterator driven through `access`
   pub mode: u8,
+  /// (operation, argument) script for mode 2: next / nth / skip / step_by / take / last
+  #[serde(default)]
+  pub access: Vec<(u8, u8)>,
   pub prefix2: Vec<u64>,
   pub tail2: u64,
   pub extra: u16,
@@ -147,10 +150,11 @@ fn strat_with(tmax_small: u32, big: bool) -> BoxedStrategy<Case> {
   let kmax = if big { 2 } else { 17 };
   (
     (t, vec(element(), 0..kmax), scripted_prefix(10), any::<u64>()),
-    (0u8..2, scripted_prefix(7), any::<u64>(), any::<u16>()),
-    (sel_spec(), sel_spec()),
+    (prop_oneof![3 => Just(0u8), 3 => Just(1u8), 2 => Just(2u8)], scripted_prefix(7), any::<u64>(), any::<u16>()),
+    (sel_spec(), sel_spec(), vec((0u8..6, 0u8..5), 1..7)),
   )
-    .prop_map(|((t, secret, prefix, tail), (mode, prefix2, tail2, extra), (sel, sub_sel))| Case {
+    .prop_map(|((t, secret, prefix, tail), (mode, prefix2, tail2, extra), (sel, sub_sel, access))| Case {
+      access,
       t,
       secret,
       prefix,
@@ -163,6 +167,27 @@ fn strat_with(tmax_small: u32, big: bool) -> BoxedStrategy<Case> {
       sub_sel,
     })
     .boxed()
+}
+
+/// shares taken from the dealer through the Iterator interface other than plain next()
+fn draw_scripted<I: Iterator<Item = Share>>(dealer: &mut I, access: &[(u8, u8)], n: usize) -> Vec<Share> {
+  let mut out = Vec::new();
+  let mut i = 0;
+  while out.len() < n {
+    let (op, arg) = if access.is_empty() { (0, 0) } else { access[i % access.len()] };
+    i += 1;
+    let a = (arg % 5) as usize;
+    match op % 6 {
+      0 => out.push(dealer.next().expect("evaluator iterator never ends")),
+      1 => out.push(dealer.nth(a).expect("evaluator iterator never ends")),
+      2 => out.push(dealer.by_ref().skip(a).next().expect("evaluator iterator never ends")),
+      3 => out.extend(dealer.by_ref().step_by(a + 1).take(2)),
+      4 => out.extend(dealer.by_ref().take(a + 1)),
+      _ => out.push(dealer.by_ref().take(a + 1).last().expect("evaluator iterator never ends")),
+    }
+  }
+  out.truncate(n);
+  out
 }
 
 fn oracle(c: &Case, st: &mut Stats) -> Result<(), String> {
@@ -195,18 +220,26 @@ fn oracle(c: &Case, st: &mut Stats) -> Result<(), String> {
     17..=64 => "t=17-64",
     _ => "t>=65",
   });
-  st.class(if c.mode == 0 { "deal=iterator" } else { "deal=random-points" });
+  st.class(match c.mode {
+    0 => "deal=iterator",
+    1 => "deal=random-points",
+    _ => "deal=iterator-adaptors(nth/skip/step_by/take/last)",
+  });
   let n = t + idx(c.extra, t.min(24) + 1);
   let mut rng2 = ScriptedRng::new(&c.prefix2, c.tail2);
-  let shares: Vec<Share> = (0..n)
-    .map(|_| {
-      if c.mode == 0 {
-        dealer.next().expect("evaluator iterator never ends")
-      } else {
-        dealer.gen(&mut rng2)
-      }
-    })
-    .collect();
+  let shares: Vec<Share> = if c.mode >= 2 {
+    draw_scripted(&mut dealer, &c.access, n)
+  } else {
+    (0..n)
+      .map(|_| {
+        if c.mode == 0 {
+          dealer.next().expect("evaluator iterator never ends")
+        } else {
+          dealer.gen(&mut rng2)
+        }
+      })
+      .collect()
+  };
   // every share: x != 0, k values, on the model polynomials
   let mut xs = std::collections::BTreeSet::new();
   let mut horner_ok = true;
@@ -231,7 +264,7 @@ fn oracle(c: &Case, st: &mut Stats) -> Result<(), String> {
     }
   }
   st.evals((n * k.max(1)) as u64);
-  if c.mode == 0 && xs.len() != n {
+  if c.mode != 1 && xs.len() != n {
     return Err(format!("iterator handed out {} distinct evaluation points for {n} shares", xs.len()));
   }
   if !horner_ok {
@@ -337,7 +370,7 @@ fn oracle(c: &Case, st: &mut Stats) -> Result<(), String> {
     }
   }
   if st.want_sample() {
-    st.sample(json!({"t": t, "k": k, "n": n, "mode": c.mode, "prefix": c.prefix, "prefix2": c.prefix2, "secret": c.secret}));
+    st.sample(json!({"t": t, "k": k, "n": n, "mode": c.mode, "access": if c.mode >= 2 { c.access.clone() } else { vec![] }, "prefix": c.prefix, "prefix2": c.prefix2, "secret": c.secret}));
   }
   Ok(())
 }
